@@ -11,7 +11,7 @@ Open Scope N_scope.
 (* ------------------------------------------------------------------ *)
 (* tactics                                                              *)
 
-Ltac unf := unfold set_fl, set_broker, set_ps, set_hub, set_ch, set_closed, set_pc, set_dl, set_up, set_pending in *.
+Ltac unf := unfold set_fl, set_broker, set_ps, set_hub, set_ch, set_closed, set_pc, set_dl, set_up, set_pending, set_cw in *.
 
 Ltac break_step H :=
   repeat (match type of H with
@@ -78,7 +78,7 @@ Ltac sc :=
 
 Definition with_log (s : st) (l : list frame) : st :=
   mkSt (b_ep s) (b_top s) (b_items s) (b_fresh s) (g_log s) (fl s) (ps_entry s) (ps_insub s) (ps_locked s)
-       (ps_buf s) (hub s) (ch s) (closed s) (pc s) (dl s) (up s) (pending s) (cleanup s) (g_pos s) l.
+       (ps_buf s) (hub s) (ch s) (closed s) (pc s) (dl s) (up s) (pending s) (cleanup s) (g_pos s) l (cw s).
 
 Lemma with_log_id : forall s, with_log s (log s) = s.
 Proof. destruct s; reflexivity. Qed.
@@ -140,7 +140,9 @@ Record SInv (c : cfg) (s : st) : Prop := {
   i_hist : forall h, pc s = SHist h -> (forall p, In p (h_pubs h) -> In p (g_log s)) /\ hist_wf c h;
   i_prestart : pre_start (pc s) = true -> has_start (log s) = false;
   i_entry_insub : ps_entry s = true -> ps_insub s = true;
-  i_entry_pc : in_window (pc s) = true -> ps_entry s = true;
+  i_entry_pc : c_pos c = true -> in_window (pc s) = true -> ps_entry s = true;
+  i_cw_nostart : has_start (cw s) = false;
+  i_cw_nil : c_batch c = false -> cw s = [];
   i_entry_dl : ps_entry s = true -> forall p lag ph, dl s = DPub p lag ph ->
                ph = PSync \/ (ph = PEnq /\ po p = 0);
   i_dl_hub : dl s <> DIdle -> hub s = true;
@@ -158,7 +160,7 @@ Lemma check_pub_fields : forall c s p lag,
   b_ep s' = b_ep s /\ b_top s' = b_top s /\ b_items s' = b_items s /\ g_log s' = g_log s /\
   fl s' = fl s /\ ps_entry s' = ps_entry s /\ ps_insub s' = ps_insub s /\ ps_buf s' = ps_buf s /\
   hub s' = hub s /\ closed s' = closed s /\ pc s' = pc s /\ up s' = up s /\ log s' = log s /\
-  cleanup s' = cleanup s /\ ps_locked s' = ps_locked s.
+  cleanup s' = cleanup s /\ ps_locked s' = ps_locked s /\ cw s' = cw s.
 Proof.
   intros c s p lag. unfold check_pub.
   repeat match goal with |- context [match ?x with _ => _ end] => destruct x eqn:? end;
@@ -186,16 +188,17 @@ Proof.
     try (inv_some H; exact I0).
 Qed.
 
-Lemma sinv_step : forall c s l s', c_pos c = true -> SInv c s -> step c s l = Some s' -> SInv c s'.
+Lemma sinv_step : forall c s l s', SInv c s -> step c s l = Some s' -> SInv c s'.
 Proof.
-  intros c s l s' Hpos I H.
+  intros c s l s' I H.
   destruct l; unfold step in H; break_step H; inv_some H; boolfix.
-  all: destruct I as [Ifl Ibuf Iitems Idl Ihist Ipre Iei Iep Ied Idh Ihp Ipos].
+  all: destruct I as [Ifl Ibuf Iitems Idl Ihist Ipre Iei Iep Icws Icwn Ied Idh Ihp Ipos].
   all: try match goal with E : pc _ = _ |- _ => rewrite E in Ipre, Iep, Ihp; cbn [pre_start in_window before_hub] in Ipre, Iep, Ihp end.
+  all: unfold emit_push; repeat match goal with |- context [if c_batch ?c0 then _ else _] => destruct (c_batch c0) eqn:? end.
   all: try rewrite !emits_eq; try rewrite !emit_eq.
   all: repeat match goal with |- context [if closed ?s then _ else _] => destruct (closed s) eqn:? end.
   all: try match goal with |- SInv _ (check_pub _ _ _ _) => idtac | _ =>
-    constructor; unf; unfold with_log; cbn [b_ep b_top b_items b_fresh g_log fl ps_entry ps_insub ps_locked ps_buf hub ch closed pc dl up pending cleanup g_pos log] in * end.
+    constructor; unf; unfold with_log; cbn [b_ep b_top b_items b_fresh g_log fl ps_entry ps_insub ps_locked ps_buf hub ch closed pc dl up pending cleanup g_pos log cw] in * end.
   all: try (sc; fail).
   all: try (intros h Hh; destruct (Ihist h Hh) as [X Y]; split; [intros; apply in_or_app; left; auto|exact Y]; fail).
   all: try (rewrite has_start_app; intros Hp; rewrite (Ipre Hp); reflexivity).
@@ -227,8 +230,8 @@ Proof.
     end.
   (* LCheck on a publication *)
   pose proof (check_pub_fields c s p lag) as F. cbv zeta in F.
-  destruct F as (F1 & F2 & F3 & F4 & F5 & F6 & F7 & F8 & F9 & F10 & F11 & F12 & F13 & F14 & F15).
-  constructor; rewrite ?F1, ?F2, ?F3, ?F4, ?F5, ?F6, ?F7, ?F8, ?F9, ?F10, ?F11, ?F12, ?F13; try assumption.
+  destruct F as (F1 & F2 & F3 & F4 & F5 & F6 & F7 & F8 & F9 & F10 & F11 & F12 & F13 & F14 & F15 & F16).
+  constructor; rewrite ?F1, ?F2, ?F3, ?F4, ?F5, ?F6, ?F7, ?F8, ?F9, ?F10, ?F11, ?F12, ?F13, ?F16; try assumption.
   - intros q lagq phq Hd. destruct (check_pub_dl c s p lag) as [E|[E Ef]]; rewrite E in Hd; [discriminate|].
     inversion Hd; subst. split; [|intros _; exact Ef].
     match goal with E : dl s = DPub _ _ PCheck |- _ => exact (proj1 (Idl _ _ _ E)) end.
